@@ -4,7 +4,7 @@
 # 2. applies the patch to /repo, runs ./check <ID> quick (and other ids given in $EXTRA), reverts
 set -u
 ID=$1; DEST=$2; SD=${3:-_seed}
-W=/tmp/wt/$ID; S=$W/$SD
+W=${WT:-/tmp/wt}/$ID; S=$W/$SD
 export GOFLAGS=-mod=mod GOPROXY=off GOSUMDB=off GOTOOLCHAIN=local
 cd $W || exit 2
 git checkout -q -- . ; git clean -fdq -e _seed -e '_seed*' >/dev/null
